@@ -90,6 +90,21 @@ impl Prop for C15 {
                 },
             ));
         }
+        {
+            let langs = langs.clone();
+            f.push(Family::new(
+                "other-separators",
+                Mode::Full,
+                "[NUMBER:x] and [PERCENT:x] for x in [12.5, 999, 1234.5, 1000000, -2500.25] under separator pairs the setters accept beyond ',' and '.': (',' '''), ('.' ' '), ('.' '_'), (',' ' '), (';' '.'), ('·' ','), x every language: the printed form typed back in prints the same",
+                move |ch| {
+                    let (dec, thou) = *ch.pick(&[(",", "'"), (".", " "), (".", "_"), (",", " "), (";", "."), ("·", ",")]);
+                    let x = *ch.pick(&[12.5, 999.0, 1234.5, 1000000.0, -2500.25]);
+                    let atom = *ch.pick(&["NUMBER", "PERCENT"]);
+                    let l = ch.pick(&langs).clone();
+                    Some(Case { kind: "other-separators".into(), cfg: cfg_of(dec, thou, 2), lang: l, line: format!("[{}:{}]", atom, fx(x)) })
+                },
+            ));
+        }
         // money ------------------------------------------------------------------------------
         {
             // currencies that have a configured symbol or alias
